@@ -25,6 +25,11 @@ FILES = {
         "`floo_pkg::set_ports` (what the `EnSbrPort`/`EnMgrPort` bits of a chimney configuration mean) and every statement\n"
         "of the two chimneys that reads or writes the source or destination identity of a flit.",
         [("setPorts", False), ("chimneyIds", True)]),
+    "HwTieChimney": (
+        "the two network interfaces (`floo_axi_chimney`, `floo_nw_chimney`), whole: the deciders read `set_ports(cfg, sbr, mgr)`\n"
+        "as \"`EnSbrPort` enables the subordinate side, `EnMgrPort` the manager side, per bus\" — which field gates which\n"
+        "generate block is in these files.",
+        [("axiChimney", False), ("nwChimney", False)]),
     "HwTieTb": (
         "how the mesh testbenches derive the job file and the memory window of the DMA node at (x, y): the statements\n"
         "mentioning `Index`, `JobId`, `MemBaseAddr` and the generate loops around them.",
@@ -39,7 +44,10 @@ def main():
     f = rtl_tie.extract(repo)
     if f["errors"]:
         sys.exit("cannot pin: " + "; ".join(f["errors"]))
+    only = sys.argv[3].split(',') if len(sys.argv) > 3 else None
     for mod, (doc, fields) in FILES.items():
+        if only and mod not in only:
+            continue
         parts = [f"/-\n  Pinned RTL (written by harness/mk_rtl_pins.py from the tree the semantics was read against):\n  {doc}\n-/\n"
                  "import FlooVerif.Gen.RtlFacts\nnamespace FlooVerif.HwTie\nopen FlooVerif Rtl Gen\n"]
         for name, nested in fields:
@@ -50,7 +58,8 @@ def main():
                              ", ".join(f"pin_{name}_{i}" for i in range(len(f[name]))) + "]\n")
             else:
                 parts.append(rtl_tie.frag_def(f"pin_{name}", f[name]))
-            parts.append(f"/-- the tokens of this part of the working tree's RTL are the pinned ones -/\n"
+            parts.append(f"set_option maxRecDepth 400000 in\n"
+                         f"/-- the tokens of this part of the working tree's RTL are the pinned ones -/\n"
                          f"theorem {name}_pinned : rtlFacts.{name} = pin_{name} := by\n  decide +kernel\n")
         parts.append("end FlooVerif.HwTie\n")
         with open(os.path.join(outdir, mod + ".lean"), "w", encoding="utf-8") as fh:
